@@ -209,15 +209,28 @@ static Built build_matsq(Rng& r) {
 }
 
 // a function over vector / matrix symbols built by the symbolic linear algebra generator
-static Built build_linalg(Rng& r, bool outer = true) {
+// (transdiff: the top of the expression is a transposed difference / sum applied to a vector, so that the derivative contains the
+//  transpose of a difference, which the final simplification of ExprDiff distributes)
+static Built build_linalg(Rng& r, bool outer = true, bool transdiff = false) {
   Built b; int n = r.range(2, 3); LinAlgGen g(r, n); g.outer = outer;
-  int nc = r.range(1, 3), nr = r.below(2), nm = r.below(3), nsc = r.below(2);
+  int nc = transdiff ? r.range(2, 3) : r.range(1, 3), nr = r.below(2), nm = r.below(3), nsc = r.below(2);
   int ns = nc + nr + nm + nsc; b.args = new Array<const ExprSymbol>(ns); b.nvar = 0; int k = 0;
   for (int i = 0; i < nc; i++) { const ExprSymbol& s = ExprSymbol::new_(("x" + to_string(k)).c_str(), Dim::col_vec(n)); b.args->set_ref(k++, s); g.cols.push_back(&s); b.nvar += n; }
   for (int i = 0; i < nr; i++) { const ExprSymbol& s = ExprSymbol::new_(("x" + to_string(k)).c_str(), Dim::row_vec(n)); b.args->set_ref(k++, s); g.rows.push_back(&s); b.nvar += n; }
   for (int i = 0; i < nm; i++) { const ExprSymbol& s = ExprSymbol::new_(("x" + to_string(k)).c_str(), Dim::matrix(n, n)); b.args->set_ref(k++, s); g.mats.push_back(&s); b.nvar += n * n; }
   for (int i = 0; i < nsc; i++) { const ExprSymbol& s = ExprSymbol::new_(("x" + to_string(k)).c_str(), Dim::scalar()); b.args->set_ref(k++, s); g.scals.push_back(&s); b.nvar += 1; }
   int d = r.range(1, 3); const ExprNode* e;
+  if (transdiff) {
+    const ExprNode& A = g.col(r.below(2)); const ExprNode& B = g.col(r.below(2)); const ExprNode& C = g.col(r.below(2));
+    const ExprNode& D = r.coin(70) ? (const ExprNode&)(A - B) : (r.coin() ? (const ExprNode&)(A + B) : (const ExprNode&)(A - (B + C)));
+    switch (r.below(5)) {
+      case 0: e = &(transpose(D) * C); b.rows = 1; b.cols = 1; break;
+      case 1: e = &sqr(transpose(D) * C); b.rows = 1; b.cols = 1; break;
+      case 2: e = &(transpose(D) * D); b.rows = 1; b.cols = 1; break;
+      case 3: e = &transpose(D); b.rows = 1; b.cols = n; break;
+      default: e = &((transpose(D) * C) * A); b.rows = n; b.cols = 1; break;
+    }
+  } else
   switch (r.below(4)) { case 0: e = &g.scal(d + 1); b.rows = 1; b.cols = 1; break; case 1: e = &g.col(d); b.rows = n; b.cols = 1; break;
                         case 2: e = &g.row(d); b.rows = 1; b.cols = n; break; default: e = &g.mat(d); b.rows = n; b.cols = n; }
   b.dag = dump_expr(*e, *b.args);
@@ -413,7 +426,7 @@ int main(int argc, char** argv) {
         if (ddf) { string d2 = dump_fun(*ddf); EMIT("diffnf %s %s %d => 1\n", ddag.c_str(), d2.c_str(), b.nvar); }
       } else if (wl == "c12") {
         GenCfg cfg; cfg.differentiable = true; cfg.allow_vec = r.coin(60); cfg.allow_apply = r.coin(40); cfg.max_depth = r.range(1, 4);
-        Built b = r.coin(6) ? build_sm(r) : (r.coin(30) ? build_linalg(r) : build(r, cfg, true));
+        Built b = r.coin(6) ? build_sm(r) : (r.coin(30) ? build_linalg(r, true, r.coin(25)) : build(r, cfg, true));
         if (b.rows > 1 && b.cols > 1) { delete b.f; continue; }   // (differentiation of matrix-valued functions is not supported)
         cur = b.dag;
         if (getenv("VERIF_TRACE")) { fprintf(stderr, "TRACE %s\n", cur.c_str()); fflush(stderr); }
